@@ -437,7 +437,14 @@ func (c *Check) genesisBindingSetter(rule string) {
 		c.req(len(perPath) > 0 && len(lacking) == 0, rule, construct+"#per-binding-writes", pos,
 			"every committed path of the per-binding import writes the record, the owner index, both owner maps and the parsed pricing"+condStr(len(lacking) > 0, "; some path lacks families "+strings.Join(lacking, ",")))
 	}
+	unref := func(a *Term) *Term {
+		for (a.Op == "deref" || a.Op == "&") && len(a.A) == 1 {
+			a = a.A[0]
+		}
+		return a
+	}
 	isElem := func(a *Term) bool {
+		a = unref(a)
 		return a.Op == "elem" && len(a.A) == 1 && strings.HasSuffix(a.A[0].Op, ".GenesisState.Bindings")
 	}
 	for _, pa := range c.P.PathsOf(ig) {
@@ -448,7 +455,7 @@ func (c *Check) genesisBindingSetter(rule string) {
 			var elem *Term
 			for _, a := range ev.CI.args {
 				if isElem(a) {
-					elem = a
+					elem = unref(a)
 				}
 			}
 			if elem == nil {
